@@ -273,7 +273,8 @@ def carries(v, w, tol=0.0):
     if isinstance(v, bool) or isinstance(w, bool):
         return isinstance(w, int) and isinstance(v, int) and v == w
     try:
-        return type(v) is type(w) and bool(v == w)
+        # an equal instance of a subclass carries the value too (isinstance typing, as everywhere in d42)
+        return isinstance(w, type(v)) and bool(v == w)
     except Exception:
         return False
 
